@@ -12,16 +12,21 @@ Arguments HDone {S} s logs.
 Arguments HFuel {S}.
 Arguments HFail {S}.
 
-Fixpoint hrun {S} (stepf : S -> action -> outcome (S * list inv)) (s : S) (ops : list action) : hres S :=
+(* The step function sees the logs of the earlier top-level operations (newest first): slot behaviours, and in the
+   reference object the choice among identical connections, may depend on the whole history so far. *)
+Fixpoint hrun {S} (stepf : list (list inv) -> S -> action -> outcome (S * list inv)) (h : list (list inv)) (s : S) (ops : list action) : hres S :=
   match ops with
   | [] => HDone s []
   | a :: r =>
-    match stepf s a with
-    | Done (s', lg) => match hrun stepf s' r with HDone s'' lgs => HDone s'' (lg :: lgs) | o => o end
+    match stepf h s a with
+    | Done (s', lg) => match hrun stepf (lg :: h) s' r with HDone s'' lgs => HDone s'' (lg :: lgs) | o => o end
     | OutOfFuel _ => HFuel
     | Fail _ => HFail
     end
   end.
+
+(* slot behaviours over a history: one script family per history of earlier top-level operations *)
+Definition hscripts := list (list inv) -> scripts.
 
 (* no emission in progress anywhere *)
 Definition Quiet (p : sp) : Prop := forall e sg, em_cur (sp_em p e sg) = [].
@@ -88,28 +93,44 @@ Proof. intros [T [_ HL]] Hl. apply HL; [exact Hl|reflexivity]. Qed.
 
 (* one top-level action *)
 Lemma step_refines st p fuel a : R st p ->
-  match step sc maxd fuel st a, spec_step sc maxd fuel p a with
+  match step sc maxd fuel st a, spec_step oldest sc maxd fuel p a with
   | Done (st', lg), Done (p', lg') => lg = lg' /\ R st' p'
   | OutOfFuel lg, OutOfFuel lg' => lg = lg'
   | _, _ => False
   end.
 Proof. intros HR. apply (proj1 (sim sc maxd fuel) 0 st p [] [a] HR). Qed.
 
-Lemma spec_step_quiet p fuel a p' lg : Quiet p -> spec_step sc maxd fuel p a = Done (p', lg) -> Quiet p'.
-Proof. intros HQ H e sg. rewrite (proj1 (spec_frame sc maxd fuel) _ _ _ _ _ _ H e sg). apply HQ. Qed.
+Lemma spec_step_quiet pick p fuel a p' lg : Quiet p -> spec_step pick sc maxd fuel p a = Done (p', lg) -> Quiet p'.
+Proof. intros HQ H e sg. rewrite (proj1 (spec_frame sc maxd pick fuel) _ _ _ _ _ _ H e sg). apply HQ. Qed.
 
-Lemma history_refines fuel : forall ops st p, R st p -> Quiet p ->
-  match hrun (step sc maxd fuel) st ops, hrun (spec_step sc maxd fuel) p ops with
+(* a nested run (any script, any depth) started in a related pair ends in a related pair: the relation,
+   hence Book, holds at every point where a slot returns *)
+Lemma nested_refines fuel d st p lg acts : R st p ->
+  match exec sc maxd fuel d st lg acts, sexec oldest sc maxd fuel d p lg acts with
+  | Done (st', lg1), Done (p', lg2) => lg1 = lg2 /\ R st' p'
+  | OutOfFuel l1, OutOfFuel l2 => l1 = l2
+  | _, _ => False
+  end.
+Proof. intros HR. apply (proj1 (sim sc maxd fuel) d st p lg acts HR). Qed.
+
+End Main.
+
+Section History.
+Variable hsc : hscripts.
+Variable maxd : nat.
+
+Lemma history_refines fuel : forall ops h st p, R st p -> Quiet p ->
+  match hrun (fun h => step (hsc h) maxd fuel) h st ops, hrun (fun h => spec_step oldest (hsc h) maxd fuel) h p ops with
   | HDone st' lgs, HDone p' lgs' => lgs = lgs' /\ R st' p' /\ Quiet p'
   | HFuel, HFuel => True
   | _, _ => False
   end.
 Proof.
-  induction ops as [|a r IH]; intros st p HR HQ; cbn [hrun]; [auto|].
-  pose proof (step_refines st p fuel a HR) as Hs.
-  destruct (step sc maxd fuel st a) as [[st1 lg1]|lg1|lg1]; destruct (spec_step sc maxd fuel p a) as [[p1 lg1']|lg1'|lg1'] eqn:Hsp; try contradiction; [|exact I].
-  destruct Hs as [<- HR1]. specialize (IH st1 p1 HR1 (spec_step_quiet _ _ _ _ _ HQ Hsp)).
-  destruct (hrun (step sc maxd fuel) st1 r) as [st2 lgs| |]; destruct (hrun (spec_step sc maxd fuel) p1 r) as [p2 lgs'| |]; try contradiction; [|exact I].
+  induction ops as [|a r IH]; intros h st p HR HQ; cbn [hrun]; [auto|].
+  pose proof (step_refines (hsc h) maxd st p fuel a HR) as Hs.
+  destruct (step (hsc h) maxd fuel st a) as [[st1 lg1]|lg1|lg1]; destruct (spec_step oldest (hsc h) maxd fuel p a) as [[p1 lg1']|lg1'|lg1'] eqn:Hsp; try contradiction; [|exact I].
+  destruct Hs as [<- HR1]. specialize (IH (lg1 :: h) st1 p1 HR1 (spec_step_quiet _ _ _ _ _ _ _ _ HQ Hsp)).
+  destruct (hrun (fun h => step (hsc h) maxd fuel) (lg1 :: h) st1 r) as [st2 lgs| |]; destruct (hrun (fun h => spec_step oldest (hsc h) maxd fuel) (lg1 :: h) p1 r) as [p2 lgs'| |]; try contradiction; [|exact I].
   destruct IH as (-> & HR2 & HQ2). auto.
 Qed.
 
@@ -118,39 +139,29 @@ Proof. intros e sg. reflexivity. Qed.
 
 (* (2) the invocation logs of all histories equal the reference object's; (safety) never Fail *)
 Lemma histories_match fuel ne nl nsg ops :
-  match hrun (step sc maxd fuel) (init ne nl nsg) ops, hrun (spec_step sc maxd fuel) (sp_init ne nl nsg) ops with
+  match hrun (fun h => step (hsc h) maxd fuel) [] (init ne nl nsg) ops, hrun (fun h => spec_step oldest (hsc h) maxd fuel) [] (sp_init ne nl nsg) ops with
   | HDone st' lgs, HDone p' lgs' => lgs = lgs' /\ R st' p' /\ Quiet p'
   | HFuel, HFuel => True
   | _, _ => False
   end.
 Proof. apply history_refines; [apply R_init|apply Quiet_init]. Qed.
 
-Lemma histories_safe fuel ne nl nsg ops : hrun (step sc maxd fuel) (init ne nl nsg) ops <> HFail.
+Lemma histories_safe fuel ne nl nsg ops : hrun (fun h => step (hsc h) maxd fuel) [] (init ne nl nsg) ops <> HFail.
 Proof.
   pose proof (histories_match fuel ne nl nsg ops) as H. intros Hf. rewrite Hf in H.
-  destruct (hrun (spec_step sc maxd fuel) (sp_init ne nl nsg) ops); exact H.
+  destruct (hrun (fun h => spec_step oldest (hsc h) maxd fuel) [] (sp_init ne nl nsg) ops); exact H.
 Qed.
 
 (* (1)+(3) bookkeeping after every history *)
 Lemma histories_bookkeeping fuel ne nl nsg ops st lgs :
-  hrun (step sc maxd fuel) (init ne nl nsg) ops = HDone st lgs -> Book st /\ NoResidue st.
+  hrun (fun h => step (hsc h) maxd fuel) [] (init ne nl nsg) ops = HDone st lgs -> Book st /\ NoResidue st.
 Proof.
   intros Hm. pose proof (histories_match fuel ne nl nsg ops) as H. rewrite Hm in H.
-  destruct (hrun (spec_step sc maxd fuel) (sp_init ne nl nsg) ops) as [p lgs'| |]; try contradiction.
+  destruct (hrun (fun h => spec_step oldest (hsc h) maxd fuel) [] (sp_init ne nl nsg) ops) as [p lgs'| |]; try contradiction.
   destruct H as (_ & HR & HQ). split; [eapply R_Book; exact HR|eapply R_NoResidue; eassumption].
 Qed.
 
-(* a nested run (any script, any depth) started in a related pair ends in a related pair: the relation,
-   hence Book, holds at every point where a slot returns *)
-Lemma nested_refines fuel d st p lg acts : R st p ->
-  match exec sc maxd fuel d st lg acts, sexec sc maxd fuel d p lg acts with
-  | Done (st', lg1), Done (p', lg2) => lg1 = lg2 /\ R st' p'
-  | OutOfFuel l1, OutOfFuel l2 => l1 = l2
-  | _, _ => False
-  end.
-Proof. intros HR. apply (proj1 (sim sc maxd fuel) d st p lg acts HR). Qed.
-
-End Main.
+End History.
 
 (* ---- what the reference object promises about the slot whose turn it is ---- *)
 Lemma sp_turn_sound p e sg c : sp_turn p e sg = Some c ->
@@ -198,4 +209,24 @@ Proof.
   injection Hn' as <- <-. destruct (sp_turn_sound _ _ _ _ Hturn) as (Hin & H1 & H2 & Hw & _).
   destruct (wf_live _ (r_wf _ _ _ _ (proj1 HR)) c Hin) as (_ & HL & _).
   exists c. rewrite <- Hl. repeat split; try assumption. rewrite (r_L _ _ _ _ (proj1 HR)). exact HL.
+Qed.
+
+(* ---- the reference object's disconnect under any choice among identical connections ---- *)
+Lemma disconnect_at_removes_one k p e sg l s :
+  count (ckey e sg l s) (sp_conns (sp_disconnect_at k p e sg l s)) = pred (count (ckey e sg l s) (sp_conns p)) /\
+  filter (fun c => negb (ckey e sg l s c)) (sp_conns (sp_disconnect_at k p e sg l s)) = filter (fun c => negb (ckey e sg l s c)) (sp_conns p) /\
+  (forall c, In c (sp_conns (sp_disconnect_at k p e sg l s)) -> In c (sp_conns p)) /\
+  sp_next (sp_disconnect_at k p e sg l s) = sp_next p /\ sp_em (sp_disconnect_at k p e sg l s) = sp_em p.
+Proof.
+  unfold sp_disconnect_at. cbn [sp_conns sp_next sp_em]. fold (count (ckey e sg l s) (sp_conns p)).
+  set (q := ckey e sg l s). set (n := count q (sp_conns p)).
+  split; [|split; [|split; [|split; reflexivity]]].
+  - destruct n as [|n'] eqn:Hn.
+    + (* no such connection: nothing is removed *)
+      cbn [pred Nat.min]. rewrite Nat.min_0_r.
+      assert (H0 : forall x, In x (sp_conns p) -> q x = false) by (apply count_zero_iff; exact Hn).
+      assert (Hle : count q (rm_nth q 0 (sp_conns p)) <= 0) by (rewrite <- Hn; apply count_rm_nth_le). lia.
+    + unfold n in Hn. rewrite <- Hn. apply count_rm_nth_same. rewrite Hn. cbn [pred]. lia.
+  - apply filter_rm_nth_other. intros x Hx. rewrite Hx. reflexivity.
+  - intros c Hc. eapply rm_nth_incl. exact Hc.
 Qed.
